@@ -259,6 +259,7 @@ def run(ctx):
     ctx.assumptions += [
         "in-order, loss-free byte delivery by the kernel's TCP and Go's net package (trusted)",
         "blocking while the peer has not yet sent the bytes is inherent and not an outcome of the model",
+        "hypothesis of every positive theorem: the local ReceiveBufSize is >= 8 (header size). A locally configured ReceiveBufSize < 8 panics in Conn.Receive (theorem C05_small_buffer_panics); this is a local misconfiguration, not peer-controlled: since /repo b35544e the client keeps its own receive buffer and HEL/ACK buffer sizes < 8192 are rejected",
     ]
 
     new, seen = 0, set()
